@@ -9,7 +9,7 @@ from plugingen import IMPORTS, NODES, pod_key, cwdump, cnodes, conf_trees, conf_
 DEPS = ["Strs", "Nets", "Pool", "NetsP", "PoolP", "Ipam", "IpamP", "Keys", "KeysP", "Plugin", "CorrBase", "Ipamc", "Pluginc",
         "PluginInv", "PluginInvL", "PluginKeyFacts", "PluginIpamFacts", "PluginEnvP", "PluginUnbindP", "PluginBindP", "PluginP",
         "PluginPool", "PluginC10Spec", "PluginC10P", "PluginWitness", "PluginPolicyP", "PluginPoolP", "PluginInfo", "PluginStickyP",
-        "PluginStaleP", "PluginLiveP", "PluginAnswerP", "PluginReplicasP"]
+        "PluginStaleP", "PluginLiveP", "PluginAnswerP", "PluginReplicasP", "PluginRoundsP"]
 
 RULE_COMMON = ("well-formed histories of plugin sections and environment operations: regression scenarios of the repaired "
                "defects, 'old versus new incarnation' races (kind x policy x requested ranges none/same/changed/multi x provider x "
